@@ -47,8 +47,15 @@ func verifCopy(dst, src interface{}) bool {
 			return true
 		}
 	case *reportReq:
-		if s, ok := src.(*reportReq); ok {
+		switch s := src.(type) {
+		case *reportReq:
 			*d = *s
+			return true
+		case *addressbookQuery:
+			*d = reportReq{Query: s}
+			return true
+		case *addressbookMultiget:
+			*d = reportReq{Multiget: s}
 			return true
 		}
 	case *mkcolReq:
@@ -119,6 +126,7 @@ type verifBackend struct {
 	objects            []AddressObject
 	books              []AddressBook
 	getErr             func(path string) error
+	putResult          *AddressObject
 	mutations          int
 }
 
@@ -185,6 +193,9 @@ func (b *verifBackend) PutAddressObject(ctx context.Context, path string, card v
 	b.note("PutAddressObject", path)
 	b.putCard, b.putOpts = card, opts
 	b.mutations++
+	if b.putResult != nil {
+		return b.putResult, nil
+	}
 	return &AddressObject{Path: path}, nil
 }
 func (b *verifBackend) DeleteAddressObject(ctx context.Context, path string) error {
